@@ -302,6 +302,25 @@ func (s c22StreamBWT) SupportsBodyWriteTo() bool { return s.ok }
 
 func (s *c22Stream) Close() error { s.closes.Add(1); return nil }
 
+var c22FileDir string
+
+// c22TempFile writes body to a file of a private temp dir (removed at exit) and returns its path.
+func c22TempFile(body []byte) string {
+	if c22FileDir == "" {
+		d, err := os.MkdirTemp("", "fhverif-c22-")
+		if err != nil {
+			panic(err)
+		}
+		c22FileDir = d
+		cleanups = append(cleanups, func() { os.RemoveAll(d) })
+	}
+	path := c22FileDir + "/body.txt"
+	if err := os.WriteFile(path, body, 0o600); err != nil {
+		panic(err)
+	}
+	return path
+}
+
 // ---- handler wrappers ----------------------------------------------------------------------------------------
 
 type c22HandlerIn struct {
@@ -328,6 +347,8 @@ type c22HandlerOut struct {
 	wireBody    []byte
 	streamClose int32
 	isStream    bool
+	accBody     []byte // Response.Body() after the wrappers ran (non-stream bodies)
+	accChecked  bool
 }
 
 func c22RunHandler(in *c22HandlerIn) *c22HandlerOut {
@@ -389,8 +410,36 @@ func c22RunHandler(in *c22HandlerIn) *c22HandlerOut {
 					}
 				}
 			})
+		case 'S':
+			path := c22TempFile(body)
+			if err := ctx.Response.SendFile(path); err != nil {
+				ctx.SetBody(body)
+			}
+			if len(in.ct) > 0 {
+				ctx.Response.Header.SetContentTypeBytes(in.ct)
+			}
 		default:
-			ctx.SetBody(body)
+			switch in.rd {
+			case 'r':
+				ctx.Response.SetBodyRaw(body)
+			case 'g':
+				ctx.SetBodyString(string(body))
+			case 'a':
+				for _, p := range in.parts {
+					ctx.Response.AppendBody(p)
+				}
+			case 'w':
+				for _, p := range in.parts {
+					ctx.Write(p) //nolint:errcheck
+				}
+			case 'W':
+				bwr := ctx.Response.BodyWriter()
+				for _, p := range in.parts {
+					bwr.Write(p) //nolint:errcheck
+				}
+			default:
+				ctx.SetBody(body)
+			}
 		}
 	}
 	wrap := func(h fasthttp.RequestHandler) fasthttp.RequestHandler {
@@ -415,6 +464,10 @@ func c22RunHandler(in *c22HandlerIn) *c22HandlerOut {
 	ctx.Init(&req, nil, nopLogger{})
 	hh(&ctx)
 	out.isStream = ctx.Response.IsBodyStream()
+	if !out.isStream {
+		out.accBody = append([]byte(nil), ctx.Response.Body()...)
+		out.accChecked = true
+	}
 	var wb bytes.Buffer
 	bw := bufio.NewWriter(&wb)
 	out.werr = ctx.Response.Write(bw)
@@ -451,6 +504,9 @@ func c22JudgeHandler(in *c22HandlerIn, out *c22HandlerOut, aeSeen string) (Verdi
 		return Verdict{VSpec, "handler-undecodable", fmt.Sprintf("net/http cannot read the response: %v", out.perr)}, false
 	}
 	compressed := out.ce != string(in.ce)
+	if out.accChecked && !bytes.Equal(out.accBody, out.wireBody) {
+		return Verdict{VSpec, "body-accessors-disagree", fmt.Sprintf("after the handler wrapper Response.Body() yields %d bytes %q… but %d bytes %q… are written (Content-Encoding %q)", len(out.accBody), clip(out.accBody), len(out.wireBody), clip(out.wireBody), out.ce)}, compressed
+	}
 	if len(in.ce) > 0 {
 		// the handler encoded the body itself: nothing may be touched
 		if compressed || !bytes.Equal(out.wireBody, body) {
@@ -511,6 +567,11 @@ func c22Handler(a [][]byte) *Case {
 	if len(a[7]) >= 2 && (in.mode == 's' || in.mode == 'f') && strings.ContainsRune("eozatTF", rune(a[7][1])) {
 		in.rd = a[7][1]
 	}
+	// a buffered body is built through one of the body APIs: SetBody (default), 'r' SetBodyRaw, 'g' SetBodyString,
+	// 'a' AppendBody per part, 'w' ctx.Write per part, 'W' BodyWriter().Write per part; mode 'S' = SendFile
+	if len(a[7]) >= 2 && in.mode == 'b' && strings.ContainsRune("rgawW", rune(a[7][1])) {
+		in.rd = a[7][1]
+	}
 	in.parts = a[10:]
 	for _, k := range c22Kinds {
 		lv := in.level
@@ -552,7 +613,14 @@ func c22Handler(a [][]byte) *Case {
 	if in.which == 'C' {
 		level = N(6)
 	}
-	line := Line("c22handler", append([][]byte{which, level, N(in.bl), aeSeen, ctSeen, in.ce, in.vry, {in.mode}, a[8]}, lens...)...)
+	modelMode := in.mode
+	switch {
+	case in.mode == 'S':
+		modelMode = 'f' // SendFile: a stream (the file) of declared size
+	case in.mode == 'b' && in.rd == 'r':
+		modelMode = 'r' // resp.bodyRaw
+	}
+	line := Line("c22handler", append([][]byte{which, level, N(in.bl), aeSeen, ctSeen, in.ce, in.vry, {modelMode}, a[8]}, lens...)...)
 	tags := []string{"handler-" + string(in.which) + string(in.mode), "handler-compressed-" + fmt.Sprint(compressed)}
 	if in.rd != 0 {
 		tags = append(tags, "handler-reader-"+string(in.rd), fmt.Sprintf("handler-reader-%c-compressed-%v", in.rd, compressed))
@@ -1308,12 +1376,18 @@ func init() {
 				if (mode == 's' || mode == 'f') && r.Chance(75) {
 					rd = string([]byte("eeeozattTF")[r.Intn(10)])
 				}
+				if mode == 'b' && r.Chance(70) {
+					rd = string([]byte("rrrgawW")[r.Intn(7)])
+				}
+				if mode == 'f' && r.Chance(15) {
+					mode, rd = 'S', ""
+				}
 				body := text(sizes())
 				if i == 0 && tier != "thorough" {
 					body = text(1 << 20)
 				}
 				var parts [][]byte
-				if mode == 'b' {
+				if mode == 'b' && rd != "a" && rd != "w" && rd != "W" {
 					parts = [][]byte{body}
 				} else {
 					for len(body) > 0 {
@@ -1353,6 +1427,26 @@ func init() {
 						for _, md := range []byte("sf") {
 							emit("handler", []byte{'B'}, N(6), N(4), B(k), B("text/plain"), nil, nil, []byte{md, rd}, B("0"), B("e"), body[:cut], body[cut:])
 						}
+					}
+				}
+			}
+			// every coding x every spelling of a weight (RFC 9110 qvalue: 0, 0., 0.0 … 1.000), with and without OWS: a zero
+			// weight in any spelling refuses the coding
+			for _, k := range c22Kinds {
+				for _, qv := range []string{"0", "0.", "0.0", "0.00", "0.000", "0.001", "0.5", "1", "1.0", "1.000"} {
+					for _, form := range []string{"%s;q=%s", "identity, %s; q=%s", "%s ;q=%s, x-other"} {
+						ae := fmt.Sprintf(form, k, qv)
+						emit("handler", []byte{[]byte("BL")[len(qv)%2]}, N(6), N(4), B(ae), B("text/html"), nil, nil, B("b"), B("0"), B("e"), text(400))
+						emit("ae", B(ae), B(k))
+					}
+				}
+			}
+			// every coding x every body API x sizes around minCompressLen
+			for _, k := range c22Kinds {
+				for _, api := range []string{"b", "br", "bg", "ba", "bw", "bW", "S"} {
+					for _, sz := range []int{199, 200, 3000} {
+						body := text(sz)
+						emit("handler", []byte{'B'}, N(6), N(4), B(k), B("text/plain"), nil, nil, B(api), B("0"), B("e"), body[:sz/2], body[sz/2:])
 					}
 				}
 			}
